@@ -32,8 +32,11 @@ func udpMaxReq() int {
 	if v, err := strconv.Atoi(os.Getenv("VERIF_UDP_MAXREQ")); err == nil && v > 0 {
 		return v
 	}
-	return 1 << 30
+	return udpMaxReqV
 }
+
+// udpMaxReqV is set by the scenario generators (C04: mostly 4 = within the limiter's burst).
+var udpMaxReqV = 1 << 30
 
 func init() {
 	registerProto(&proto{Name: "dns", Port: 53, UDP: true, Gen: genDNSUDP})
